@@ -277,6 +277,72 @@ def wsgi_stream_cases(r, nmax):
                     r.violation("wsgi_stream:" + pr.split(" ")[0], w, f"WSGI StreamResponse n={n} raise_at={raise_at} consume={consume}: {pr}")
 
 
+def wsgi_stream_objects(r):
+    """WSGI responses over a producer that is an object with __iter__/__next__/close() (close() counts its calls and must not be
+    called twice), with GET and HEAD, the server taking k items and then closing: once the producer has been started it is
+    closed exactly once when the server stops early, and at most once after it ran to its end."""
+    from baize.wsgi import StreamResponse, SendEventResponse
+    for kind in ("stream", "sse"):
+        for n in (0, 1, 2):
+            for consume in list(range(0, n + 3)) + [None]:
+                for method in ("GET", "HEAD"):
+                    if kind == "sse" and consume is not None and consume <= n:
+                        continue  # (the event stream's early close under thread schedules is the wsgi_sse family)
+                    o = {"started": 0, "closes": 0, "yielded": 0}
+
+                    class Prod:
+                        def __iter__(self):
+                            return self
+
+                        def __next__(self):
+                            o["started"] = 1
+                            if o["yielded"] >= n:
+                                raise StopIteration
+                            o["yielded"] += 1
+                            return (b"%d;" % o["yielded"]) if kind == "stream" else {"data": str(o["yielded"])}
+
+                        def close(self):
+                            o["closes"] += 1
+                            if o["closes"] > 1:
+                                raise RuntimeError("producer closed twice")
+                    resp = StreamResponse(Prod()) if kind == "stream" else SendEventResponse(Prod(), ping_interval=30)
+                    res = SV.run_wsgi(resp, SV.to_environ(SV.AReq(method=method)), close_after=consume)
+                    r.count("evaluations")
+                    r.count("traces")
+                    r.count("distinct_nontrivial")
+                    w = {"driver": "wsgi_objects", "kind": kind, "n": n, "consume": consume, "method": method}
+                    what = f"WSGI {kind} response over a producer object of {n} items, {method}, server takes {consume} items then close()"
+                    if res.exc is not None:
+                        r.violation("wsgi_objects:exception", w, f"{what}: raised {res.exc!r:.100}")
+                    elif o["closes"] > 1:
+                        r.violation("wsgi_objects:closed-twice", w, f"{what}: the producer's close() ran {o['closes']} times")
+                    elif o["started"] and o["yielded"] <= n and consume is not None and consume <= o["yielded"] and o["closes"] != 1 and kind == "stream":
+                        r.violation("wsgi_objects:not-closed", w, f"{what}: the producer was started and left unfinished but close() ran {o['closes']} times")
+                    elif not res.closed:
+                        r.violation("wsgi_objects:close-failed", w, f"{what}: close() of the response iterable failed")
+    # generators under HEAD: whatever the server does with the body of a HEAD answer, closing the response closes the generator
+    for kind in ("stream", "sse"):
+        for consume in (0, 1, None):
+            st = {"enter": 0, "exit": 0}
+
+            def gen():
+                st["enter"] += 1
+                try:
+                    yield (b"x" if kind == "stream" else {"data": "x"})
+                    yield (b"y" if kind == "stream" else {"data": "y"})
+                finally:
+                    st["exit"] += 1
+            g = gen()
+            resp = StreamResponse(g) if kind == "stream" else SendEventResponse(g, ping_interval=30)
+            res = SV.run_wsgi(resp, SV.to_environ(SV.AReq(method="HEAD")), close_after=consume)
+            r.count("evaluations")
+            r.count("traces")
+            state = inspect.getgeneratorstate(g)
+            if st["enter"] != st["exit"] or state == "GEN_SUSPENDED" or (consume is None and state != "GEN_CLOSED"):
+                r.violation("wsgi_objects:head-generator-left-open", {"driver": "wsgi_objects", "kind": kind, "n": 2, "consume": consume, "method": "HEAD"},
+                            f"WSGI {kind} response, HEAD, server takes {consume} items then close(): user generator left {state} (cleanup ran {st['exit']} times for {st['enter']} entries)")
+
+
 def wsgi_stream_bad_source(r):
     from baize.wsgi import StreamResponse
 
@@ -796,6 +862,7 @@ def run_shard(desc, tier):
     elif desc[0] == "wsgi_stream":
         wsgi_stream_cases(r, 3)
         wsgi_stream_bad_source(r)
+        wsgi_stream_objects(r)
         r.count("states", 1)
         r.sample({"driver": "wsgi_stream", "n": 3, "raise_at": 1, "consume": 2})
     else:
@@ -847,6 +914,10 @@ def replay(w):
         r = R()
         wsgi_stream_cases(r, 3)
         wsgi_stream_bad_source(r)
+        return bool(r.viol), {"violations": sorted(r.viol)}
+    if w["driver"] == "wsgi_objects":
+        r = R()
+        wsgi_stream_objects(r)
         return bool(r.viol), {"violations": sorted(r.viol)}
     kind, n, raise_at, gate_sends, slow_close, disc, pings, empty_at = w["config"]
     x = run_asgi(list(w["schedule"]), kind, n, raise_at, gate_sends, slow_close, disc, pings, empty_at, w.get("producer", "agen"), w.get("send_fail_at"))
